@@ -605,6 +605,26 @@ theorem zero_timeout_nocancel_detaches (cfg : Cfg) (hc : cfg.cancel = false) (op
   rw [hlist] at hk
   split at hk <;> simp at hk
 
+/-! ## construction context -/
+
+/-- **The model has no construction context.**  `Cfg`, `Rd`, `State`, `Op` carry nothing about the runtime that was current
+while the service was assembled, so every theorem of this file — all of them quantify over `cfg`, `ops` only — holds for a
+service built `here`, `other-idle` or `other-dropped` alike (a `TimeLimiter` is a value: timers and the detached task of the
+non-cancelling mode belong to the runtime the call is made on).  What remains to be said is that the *line protocol* cannot
+smuggle it in: a `built=<v>` word (any `v`; `Built.word b` in particular, see the `#guard` below), anywhere in the case header
+or on an `arrive` line, changes neither the machine's initial state (configuration, readiness, state) nor the operation an
+`arrive` line stands for, nor the step the machine takes on it — state and events are those of the line without the word. -/
+theorem construction_context_irrelevant :
+    (∀ (kv₁ kv₂ : Kv) (v : String), machine.init (kv₁ ++ ("built", v) :: kv₂) = machine.init (kv₁ ++ kv₂)) ∧
+    (∀ (c w v : String) (w₁ w₂ : List String), parseKv [w] = [("built", v)] →
+       parseOp ("arrive" :: c :: (w₁ ++ w :: w₂)) = parseOp ("arrive" :: c :: (w₁ ++ w₂))) ∧
+    (∀ (s : machine.σ) (c w v : String) (w₁ w₂ : List String), parseKv [w] = [("built", v)] →
+       machine.step s ("arrive" :: c :: (w₁ ++ w :: w₂)) = machine.step s ("arrive" :: c :: (w₁ ++ w₂))) :=
+  built_word_irrelevant
+
+-- the three words of the dimension parse as a `built` pair (evaluated at build time: `String.splitOn` does not reduce in the kernel)
+#guard [Built.here, .otherIdle, .otherDropped].all fun b => parseKv ["built=" ++ b.word] == [("built", b.word)]
+
 /-! ## the observable log, and one result per caller -/
 
 /-- `trace` is the event log (`State.log`) with the instant of every line. -/
